@@ -15,6 +15,7 @@ import (
 )
 
 type Goroutine struct {
+	syncEpoch int // number of synchronisation operations performed so far (race detection)
 	id      int
 	resume  chan struct{}
 	done    bool
@@ -204,6 +205,9 @@ func (ex *Exec) yield(what string) {
 	if ex.sched == nil || ex.initMode > 0 {
 		return
 	}
+	if ex.curG != nil && !strings.HasPrefix(what, "call ") {
+		ex.curG.syncEpoch++ // every visible operation is a synchronisation operation; a preemption at a call boundary is not
+	}
 	if len(ex.gs) == 1 && len(ex.sched.timers) == 0 {
 		return
 	}
@@ -392,6 +396,7 @@ func (ex *Exec) block(ready func() bool, what string) {
 		panic(unsupported{"blocking operation during package init"})
 	}
 	cur := ex.curG
+	cur.syncEpoch++
 	for !ready() {
 		cur.ready = ready
 		cur.what = what
@@ -1018,4 +1023,52 @@ func registerSyncIntrinsics() {
 	}
 	intrinsics["(*time.Timer).Reset"] = reset
 	intrinsics["(*time.Ticker).Reset"] = reset
+}
+
+
+// mapAccessCheck is the data-race obligation on Go maps ("fatal error: concurrent map writes / read and map
+// write" in the real runtime): an access conflicts with an earlier access of another goroutine (one of them a
+// write) when that goroutine has performed no synchronisation operation at all since its access - it is still
+// inside the same synchronisation-free region, so nothing orders the two accesses. This under-approximates the
+// happens-before relation's complement (no false alarm: every real ordering goes through a synchronisation
+// operation of the earlier goroutine after its access) and needs call-boundary preemption to be exposed.
+func (ex *Exec) mapAccessCheck(m *MapV, write bool) {
+	if m == nil || !m.tracked || ex.sched == nil || ex.curG == nil || ex.initMode > 0 {
+		return
+	}
+	if ex.h.PreemptCalls != "" {
+		ex.yield("call (map access)") // an access to a map of the code under test is a preemption point, not a synchronisation
+	}
+	cur := ex.curG
+	conflict := func(a *mapAccess) bool {
+		return a != nil && a.g != cur && !a.g.done && a.g.syncEpoch == a.epoch
+	}
+	where := ex.siteForViolation()
+	if conflict(m.lastW) {
+		ex.raceFound(m.lastW, "write", where, write)
+	}
+	if write {
+		for _, r := range m.lastR {
+			if conflict(r) {
+				ex.raceFound(r, "read", where, write)
+			}
+		}
+		m.lastW = &mapAccess{g: cur, epoch: cur.syncEpoch, where: where}
+	} else {
+		if m.lastR == nil {
+			m.lastR = map[int]*mapAccess{}
+		}
+		m.lastR[cur.id] = &mapAccess{g: cur, epoch: cur.syncEpoch, where: where}
+	}
+}
+
+func (ex *Exec) raceFound(prev *mapAccess, prevKind, where string, write bool) {
+	kind := "read"
+	if write {
+		kind = "write"
+	}
+	ex.ensureModel()
+	ex.res.Obligations++
+	ex.violation("data-race", fmt.Sprintf("concurrent map %s in %s and map %s in %s with no synchronisation in between (goroutines %s / %s)",
+		prevKind, shortFn(prev.where), kind, shortFn(where), shortFn(prev.g.fnName), shortFn(ex.curG.fnName)))
 }
